@@ -319,22 +319,30 @@ func exprStringOf(e ast.Expr) string {
 	return b.String()
 }
 
-// reachBodies: the body of fd and the bodies of the package-level functions of the same package it calls by
-// name, transitively: a few lines extracted into an unexported helper are still what the function does.
+// reachBodies: the body of fd and the bodies of the functions and methods of the same package it mentions
+// (called by name, called as a method `x.m(...)`, or handed on as a value `x.m` / `f`), transitively: a few
+// lines moved into an unexported helper or method are still what the function does.
 func reachBodies(rel string, fd *ast.FuncDecl) []ast.Node {
 	var out []ast.Node
-	seen := map[string]bool{}
+	seen := map[*ast.FuncDecl]bool{}
 	var visit func(fd *ast.FuncDecl, depth int)
 	visit = func(fd *ast.FuncDecl, depth int) {
-		if fd == nil || fd.Body == nil || seen[fd.Name.Name] || depth > 4 {
+		if fd == nil || fd.Body == nil || seen[fd] || depth > 4 {
 			return
 		}
-		seen[fd.Name.Name] = true
+		seen[fd] = true
 		out = append(out, fd.Body)
 		ast.Inspect(fd.Body, func(n ast.Node) bool {
-			if c, ok := n.(*ast.CallExpr); ok {
-				if id, ok := c.Fun.(*ast.Ident); ok && !seen[id.Name] {
-					visit(funcDecl(rel, "", id.Name), depth+1)
+			switch x := n.(type) {
+			case *ast.Ident:
+				if x.Obj == nil || x.Obj.Kind == ast.Fun {
+					visit(funcDecl(rel, "", x.Name), depth+1)
+				}
+			case *ast.SelectorExpr:
+				if id, ok := x.X.(*ast.Ident); ok && id.Obj != nil { // a local / receiver / parameter: a method of the package?
+					for _, m := range methodsNamed(rel, x.Sel.Name) {
+						visit(m, depth+1)
+					}
 				}
 			}
 			return true
@@ -342,6 +350,42 @@ func reachBodies(rel string, fd *ast.FuncDecl) []ast.Node {
 	}
 	visit(fd, 0)
 	return out
+}
+
+// methodsNamed: the methods of that name (any receiver) declared in the package of rel.
+func methodsNamed(rel, name string) []*ast.FuncDecl {
+	var out []*ast.FuncDecl
+	for _, r := range pkgFiles(rel) {
+		if _, err := os.Stat(filepath.Join(repo, r)); err != nil {
+			continue
+		}
+		f := parse(r)
+		if f == nil || (r != rel && hasVerifTag(f)) {
+			continue
+		}
+		for _, d := range f.Decls {
+			if fd, ok := d.(*ast.FuncDecl); ok && fd.Recv != nil && fd.Name.Name == name {
+				out = append(out, fd)
+			}
+		}
+	}
+	return out
+}
+
+// reach: one block holding the statements of fd followed by the bodies reachBodies finds, for extractors that
+// walk "the function" with ast.Inspect.
+func reach(rel string, fd *ast.FuncDecl) *ast.BlockStmt {
+	if fd == nil || fd.Body == nil {
+		return &ast.BlockStmt{}
+	}
+	bodies := reachBodies(rel, fd)
+	b := &ast.BlockStmt{List: append([]ast.Stmt{}, fd.Body.List...)}
+	for _, n := range bodies[1:] {
+		if blk, ok := n.(*ast.BlockStmt); ok {
+			b.List = append(b.List, blk)
+		}
+	}
+	return b
 }
 
 var out bytes.Buffer
